@@ -18,7 +18,7 @@ int fn2(T t, union U u) { return t.a + u.x; }
 void fn3(enum E e) { }
 int fn1_alias(struct S* s) __attribute__((alias("fn1")));
 int fn1_weak(struct S* s) __attribute__((weak, alias("fn1")));
-int var1; int var2 __attribute__((alias("var1")));
+int var1; extern int var2 __attribute__((alias("var1")));
 struct S var3;
 """
 LIB_B = LIB_A.replace("long b;", "long b; int inserted;").replace("void fn3(enum E e) { }", "").replace("enum E { E0, E1 }", "enum E { E0, E1, E2 }")
